@@ -372,12 +372,16 @@ package mcp
 //@   nopanic
 //@   requires storeWF(s)
 //@   ensures @unknown-stream !registered(s, sessionID, streamID) ==> result.1 != nil && len(result.0) == 0
-//@   ensures @purged registered(s, sessionID, streamID) && index + 1 < s.store[sessionID][streamID].first
+// (clauses taken from the property: "for any session, stream and index ... exactly the payloads appended after that index
+// ... or an events-purged error if any of them has been evicted": something after the index has been evicted exactly when
+// the stream's first retained index is above both the index asked for and zero - an index below -1 on a stream that
+// lost nothing asks for everything. Defect F32: such an index was answered with the purge error.)
+//@   ensures @purged registered(s, sessionID, streamID) && s.store[sessionID][streamID].first > 0 && index + 1 < s.store[sessionID][streamID].first
 //@        ==> result.1 != nil && errIs(result.1, ErrEventsPurged) && len(result.0) == 0
-//@   ensures @exact-count registered(s, sessionID, streamID) && index + 1 >= s.store[sessionID][streamID].first
-//@        ==> result.1 == nil && len(result.0) == max(0, nextIdx(s.store[sessionID][streamID]) - (index + 1))
-//@   ensures @exact-items registered(s, sessionID, streamID) && index + 1 >= s.store[sessionID][streamID].first
-//@        ==> (forall i int :: {mk(i)} mk(i) && 0 <= i && i < len(result.0) ==> result.0[i] == item(s.store[sessionID][streamID], index + 1 + i))
+//@   ensures @exact-count registered(s, sessionID, streamID) && (s.store[sessionID][streamID].first == 0 || index + 1 >= s.store[sessionID][streamID].first)
+//@        ==> result.1 == nil && len(result.0) == max(0, nextIdx(s.store[sessionID][streamID]) - max(0, index + 1))
+//@   ensures @exact-items registered(s, sessionID, streamID) && (s.store[sessionID][streamID].first == 0 || index + 1 >= s.store[sessionID][streamID].first)
+//@        ==> (forall i int :: {mk(i)} mk(i) && 0 <= i && i < len(result.0) ==> result.0[i] == item(s.store[sessionID][streamID], max(0, index + 1) + i))
 //@   ensures @private-copy len(result.0) > 0 ==> fresh(result.0)
 
 // After, step 2 (the iterator): yields the copied payloads in order, stopping when the consumer says so; an error
